@@ -4,7 +4,8 @@ usage: eval_seeds_parallel.py [--lanes N] [names...]"""
 import glob, json, os, subprocess, sys, threading
 V = "/verif"
 EXTRA = {"C11-A": "C11,C15", "C02-B": "C02,C01", "C03-B": "C03,C02", "C06-B": "C06,C05", "C15-B": "C15,C11", "C17-B": "C17,C19",
-         "C13-F": "C13,C03", "C19-E": "C19,C15", "C03-F": "C03,C05", "C02-D": "C02,C04", "C07-D": "C07,C09", "C03-D": "C03,C05"}
+         "C13-F": "C13,C03", "C19-E": "C19,C15", "C03-F": "C03,C05", "C02-D": "C02,C04", "C07-D": "C07,C09", "C03-D": "C03,C05",
+         "C02-G": "C02,C01", "C02-H": "C02,C04", "C13-G": "C13,C01", "C16-G": "C16,C04", "C04-H": "C04,C16", "C14-H": "C14,C11", "C11-H": "C11,C14", "C05-H": "C05,C04"}
 args = sys.argv[1:]
 lanes = 4
 if "--lanes" in args:
